@@ -282,6 +282,11 @@ func (t *Tree) recover(errp *error) {
 			panic(e)
 		}
 		if t != nil {
+			// The lexer goroutine is blocked handing over its next item;
+			// let it run to the end of the input so that it exits.
+			if t.lex != nil {
+				t.lex.drain()
+			}
 			t.stopParse()
 		}
 		*errp = e.(error)
